@@ -25,7 +25,7 @@ add("C20", "c_tl",
 BUBBLE = {"GOMAXPROCS": "1"}  # synctest bubbles: one P keeps goroutine scheduling reproducible
 
 add("C01", "c_updates",
-    [T("TestC01Box", 30000, 150000), T("TestC01Manager", 4000, 40000, env=BUBBLE)],
+    [T("TestC01Box", 100000, 600000), T("TestC01Manager", 20000, 150000, env=BUBBLE)],
     pre=["TestC01Regression"],
     rule="(a) stateful rapid histories over a partitioned server log (N<=40 positions, counts 1..4) against the real sequenceBox: next / later (reorder) / lose / dup / synthetic overlapping / count-0 / fetched difference; (b) the real updates.Manager in a synctest bubble against a simulated honest server (common pts, qts, 0..2 channels, sliced differences, pushes with loss/dup/reorder, pushes not awaited so channel workers interleave with the main loop). non-trivial = history has a duplicate, a reorder that opens a gap, an overlap, a gap filled by arrival or closed by a difference (a) / dup, reorder, loss or sliced difference (b); distinct by action list",
     technique="model-based stateful PBT (rapid) with a position-frontier reference model; history invariant over recorded handler/difference events; virtual time (testing/synctest)",
@@ -34,7 +34,7 @@ add("C01", "c_updates",
     assumptions=["position-0 updates never reach a box (callers filter them)", "server differences are honest: range (request, head], messages in new_messages, the rest in other_updates"])
 
 add("C02", "c_updates",
-    [T("TestC02", 5000, 50000, env=BUBBLE)],
+    [T("TestC02", 30000, 200000, env=BUBBLE)],
     pre=["TestC02Regression"],
     rule="finite logs (<=10 common pts entries incl. deletes/reads/edits with pts_count 1..3, <=4 qts entries, <=2 channels x <=7 entries) delivered with loss/dup/reorder through the real Manager in a bubble, recovery by gap timer / idle timer / updatesTooLong / channelTooLong, differences whole or sliced (limit 1..3); non-trivial = a recovering difference carried a pts/qts-bearing entry in other_updates or was sliced; distinct by step list",
     technique="stateful PBT against a reference server log (rapid + synctest): delivered multiset must cover the log after recovery",
@@ -43,7 +43,7 @@ add("C02", "c_updates",
     assumptions=["handler returns nil", "storage never fails"])
 
 add("C03", "c_updates",
-    [T("TestC03", 1500, 15000, env=BUBBLE)],
+    [T("TestC03", 6000, 50000, env=BUBBLE)],
     pre=["TestC03Regression"],
     level="fault_enumeration",
     rule="C02's histories plus too-long difference answers; every StateStorage write and handler call is recorded in one totally ordered trace; crash points = every trace index for traces <= 12 events, otherwise 6 drawn indexes + 6 drawn indexes just after storage writes; each crash point restarts a second Manager from the storage snapshot at that index and recovers. non-trivial = a crash point directly after a handler call or difference answer (i.e. strictly between delivery and the next write, or inside a difference); distinct by steps+crash points",
@@ -54,7 +54,7 @@ add("C03", "c_updates",
 
 
 add("C24", "c_rpc",
-    [T("TestC24", 20000, 150000, env=BUBBLE)],
+    [T("TestC24", 60000, 400000, env=BUBBLE)],
     pre=["TestC24Regression"],
     rule="owned schedules over the real rpc.Engine in a synctest bubble: 1..3 concurrent Do calls; drawn actions start/ack/valid result/undecodable result/rpc error/duplicate/foreign result/cancel/ForceClose/retry-interval tick/release of a goroutine parked at a scheduling point (rpc: after handler lookup in NotifyResult/NotifyError, before Output.Decode, before Do's final select, before drop; harness: inside Decode); which points park is drawn per case. non-trivial = a result is delivered while its call races with cancel/close, or a duplicate/foreign/late result occurs; distinct by action list",
     technique="stateful PBT with an owned schedule (rapid-drawn choices over build-tagged scheduling points, testing/synctest) + history oracle over one totally ordered event log",
@@ -63,7 +63,7 @@ add("C24", "c_rpc",
     assumptions=["hook-point granularity: a race needing a preemption between two statements with no point in between is out of reach"])
 
 add("C25", "c_rpc",
-    [T("TestC25", 20000, 150000, env=BUBBLE)],
+    [T("TestC25", 60000, 400000, env=BUBBLE)],
     rule="retry interval in {1,3,10}s, max retries 1..6, optional send failure on the k-th transmission, script of <=3 events (ack, duplicate ack, result, cancel) at instants 1ns after a timer instant, 1ns before the next one, or in between; reference model predicts the exact transmission instants and the outcome. non-trivial = at least one retransmission; distinct by parameters+script",
     technique="PBT against a complete reference model on virtual time (rapid + testing/synctest)",
     text="Transmissions logged by the harness send function must equal the model's instants exactly, all with the same msg id/seq no/body, at most 1+maxRetries, none after an ack/result, and the call's outcome (success, cancel, send failure, RetryLimitReachedErr at maxRetries*interval) must match.",
@@ -71,7 +71,7 @@ add("C25", "c_rpc",
     assumptions=["clock.System inside the bubble is the virtual clock"])
 
 add("C26", "c_rpc",
-    [T("TestC26", 20000, 150000, env=BUBBLE)],
+    [T("TestC26", 60000, 400000, env=BUBBLE)],
     rule="same machine as C24; after ForceClose all parked goroutines are released and every pending Do and ForceClose itself must have returned with no virtual time elapsed; classification oracle: sent+never acked => errors.Is(err, rpc.ErrEngineClosed) (what pool/telegram treat as retryable), ack delivered before close => non-nil error that is not ErrEngineClosed, started after close => ErrEngineClosed; drop handler called exactly once iff Do returned the caller's context error and the first send had returned nil. non-trivial = close/cancel between send and ack, between ack and result, or while send is blocked; distinct by action list",
     technique="stateful PBT with an owned schedule (rapid + synctest + scheduling points), promptness watchdog on virtual time",
     text="Sampled schedules; promptness is asserted as 'zero virtual time after releasing all scheduling points'; retryability is asserted against the predicate pool.errRetryableOnNewConn/telegram.errRetryableOnNewConn use (errors.Is ErrEngineClosed).",
@@ -81,7 +81,7 @@ add("C26", "c_rpc",
 
 POOL_RULE = "owned schedules over the real pool.DC in a synctest bubble with harness-controlled fake connections: pool max in {1,1,2,3,unlimited}, 1..5 callers; drawn actions start/cancel caller, make connection ready, kill connection, finish an invoke with ok / retryable dead-connection error (only on a dead connection) / non-retryable error, close DC, release a goroutine parked at a pool scheduling point (dead-entry, release-entry, acquire-created, acquire-wait, acquire-stuck, acquire-giveup; each enabled with p=1/3); the in-mutex point transfer-send cancels all waiting callers on a pre-drawn n-th hand-over and yields instead of parking. "
 add("C27", "c_pool",
-    [T("TestC27", 20000, 150000, env=BUBBLE)],
+    [T("TestC27", 40000, 250000, env=BUBBLE)],
     pre=["TestC27Regression"],
     rule=POOL_RULE + "non-trivial = a connection dies while in use or while a caller waits, with >=2 callers; distinct by action list",
     technique="stateful PBT with an owned schedule (rapid + synctest + build-tagged scheduling points); invariants after every step",
@@ -89,7 +89,7 @@ add("C27", "c_pool",
     note="'observed death' = the connection's Run returned and, at a later quiescent point, no goroutine was parked before dead() for it; the window in which the pool cannot know yet is not counted. Go's random select choice among ready cases makes some failures non-reproducible from the fail file; the log is then the replay artefact.",
     assumptions=["pool.ErrConnDead / rpc.ErrEngineClosed are returned only by connections that are dead or closing"])
 add("C28", "c_pool",
-    [T("TestC28", 20000, 150000, env=BUBBLE)],
+    [T("TestC28", 40000, 250000, env=BUBBLE)],
     pre=["TestC28Regression"],
     rule=POOL_RULE + "non-trivial = a caller is cancelled while its connection is being created or during a hand-over; distinct by action list",
     technique="stateful PBT with an owned schedule (rapid + synctest + scheduling points); behavioural capacity oracles, no internal state read",
@@ -204,7 +204,7 @@ add("C34", "c_files",
 
 CONN = {"GOMAXPROCS": "1"}
 add("C07", "c_mtproto",
-    [T("TestC07Buf", 30000, 300000), T("TestC07Conn", 3000, 30000, env=CONN)],
+    [T("TestC07Buf", 30000, 300000), T("TestC07Conn", 10000, 80000, env=CONN)],
     pre=["TestC07Regression"],
     rule="(a) id sequences over a small alphabet (duplicates and lower-than-all frequent) against a sorted-set model of the last N accepted ids, N in {1,2,3,8,100}; (b) a running mtproto.Conn in a bubble receives 1..25 generated frames built by the reference encryptor: valid, exact replay, replay of an id with new content, client-typed id, type-2 id, 301/299 s old, 31/29 s ahead, wrong session, lower-but-fresh id, then one of padding 0/4/8/12/1024/1040, payload length not divisible by 4, wrong key, flipped bit. non-trivial = replay of a non-latest id after >=2 accepted (a) / a frame differing from valid in exactly one rule (b); distinct by sequence",
     technique="model-based PBT (rapid) + reference-encrypted adversarial frames against a live connection on virtual time (testing/synctest)",
@@ -212,27 +212,27 @@ add("C07", "c_mtproto",
     note="Frames are sent one at a time with quiescence in between (the connection handles each frame on its own goroutine).",
     assumptions=["hard-invalid frames (bad padding/key/length) may also end the connection; they are sent last"])
 add("C08", "c_mtproto",
-    [T("TestC08Gen", 50000, 500000), T("TestC08Conn", 1500, 15000, env={"GOMAXPROCS": "4"})],
+    [T("TestC08Gen", 50000, 500000), T("TestC08Conn", 5000, 40000, env={"GOMAXPROCS": "4"})],
     pre=["TestC08Regression"],
     rule="(a) MessageIDGen with a scripted clock: deltas {0,1,2,3,4,5,9,10,11 ns, 1 us, 1 ms, 1 s, -1 ns, -1 s, 15.6 ms} incl. second-boundary starts; (b) 2..24 concurrent Invoke/Ping calls in 1..3 waves on one connection, the peer decodes every frame. non-trivial = >=1 delta in 1..3 ns or a backwards jump (a) / both content and service messages (b); distinct by delta list / op list",
     technique="PBT (rapid) with a scripted clock; history oracle over frames decoded by the reference peer",
     text="Ids strictly increase, are divisible by 4, decoded time monotone and within 10 ns per call of the highest clock reading; in msg_id order content messages have seq_no 2k+1 and service messages 2k.",
     note="Retransmissions (same id, seq and body) are de-duplicated first.")
 add("C23", "c_mtproto",
-    [T("TestC23", 10000, 100000, env=CONN), T("TestC23Corpus", 1, 1, rapid=False, env=CONN)],
+    [T("TestC23", 30000, 250000, env=CONN), T("TestC23Corpus", 1, 1, rapid=False, env=CONN)],
     rule="payloads handed to the connection's message handler while 0..3 real invocations are pending: generated service messages (rpc_result with plain/gzipped result, rpc_error, pong or nothing inside; pong; msgs_ack; bad_msg_notification; new_session_created; future_salts; unknown types; msg_detailed_info) wrapped in containers and gzip up to depth 4 with req_msg_ids from {a pending id, random}; mutated files of the 14101-entry handle_message corpus; raw bytes with known type ids; plus every corpus file once. non-trivial = payload decodes at least one level or names a pending id; distinct by payload description",
     technique="grammar-based PBT (rapid) through a build-tagged entry point on the test goroutine + full corpus replay",
     text="No panic; a pending invocation completes only by a payload that names its id, with exactly those bytes / that rpc error; the others stay pending and are then completed by an explicit matching result.",
     note="When handling returns an error (malformed sibling, duplicate result) the client drops the rest of that container; delivery of the siblings is not asserted.",
     fuzz=[])
 add("C41", "c_mtproto",
-    [T("TestC41Salts", 30000, 300000), T("TestC41Conn", 3000, 30000, env=CONN)],
+    [T("TestC41Salts", 30000, 300000), T("TestC41Conn", 10000, 80000, env=CONN)],
     rule="(a) salts.Salts under store (fresh, re-sent identical triples, already expired, far future) / clock advance / reset / get with a fixed lookahead, against a map model; (b) a live connection: new_session_created salt, future_salts answers with overlapping / duplicated / expired windows, virtual sleeps up to 3 h, invokes, bad_server_salt once or twice for a request. non-trivial = an expired salt is dropped or a duplicate/expired triple stored (a) / clock crosses a salt expiry or a bad-salt event (b); distinct by action list",
     technique="model-based stateful PBT (rapid) + live connection against the reference peer on virtual time",
     text="Get returns only salts valid beyond the deadline and fails only when none is; every client frame carries a salt the server told or a stored future salt valid beyond now+5min; bad_server_salt => exactly one re-send with the new salt; a second one fails the call.",
     note="Tolerated and counted: the client keeps a previously stored future salt when every stored salt has expired and the server told nothing newer (no valid salt exists then).")
 add("C43", "c_mtproto",
-    [T("TestC43Ping", 3000, 30000, env=CONN), T("TestC43KeepAlive", 3000, 30000, env=CONN)],
+    [T("TestC43Ping", 15000, 100000, env=CONN), T("TestC43KeepAlive", 15000, 100000, env=CONN)],
     rule="1..3 concurrent Ping calls with deadlines 1..20 s and 0..3 scripted pongs each (own id, id of another in-flight ping, random id, duplicate) at drawn virtual times; keep-alive loop with interval/timeout drawn (timeout < interval) and per-round pong latency prompt / timeout-1ms / timeout+1ms / never / wrong id. non-trivial = a non-matching or duplicate pong (ping) / latency within 1 ms of the timeout or wrong id (keep-alive); distinct by plan",
     technique="PBT on virtual time (rapid + testing/synctest) against the reference peer",
     text="Ping returns nil iff a pong with its own id arrived before its deadline, at that instant, else the deadline error at the deadline; Conn.Run ends with an error within the ping timeout of an unanswered keep-alive ping and keeps running otherwise.",
@@ -319,7 +319,7 @@ add("C31", "c_session",
 
 
 add("C29", "c_client",
-    [T("TestC29", 3000, 30000, env=CONN)],
+    [T("TestC29", 12000, 100000, env=CONN)],
     pre=["TestC29Regression", "TestC29Known"],
     level="fault_enumeration",
     rule="a real telegram.Client (restored session, public API, dcs.Plain resolver over pipes) in a synctest bubble against harness peers that answer initConnection/getConfig and pings; 1..3 marked invocations, each with a first-sight plan answer / kill before ack / ack then kill / result then kill / hold (acked) / hold unacked; optional kill of the idle connection first (kill before send); ending: reconnect and wait 2 virtual minutes, or close the client at +0/1 ms/100 ms/3 s/20 s (replacement connections refused) and issue one more invocation. non-trivial = a kill lands after the frame was read by the peer; distinct by scenario. When the known finding is listed, at most one killing plan per case (issued last) and no burst of first writes after an idle kill (counted as excluded)",
